@@ -218,6 +218,8 @@ static int test_tp1(const uint8 *data, char *t, int s)
 		return -1;
 	}
 
+	pw_read_title(data + 8, t, 20);
+
 	return 0;
 }
 
